@@ -55,6 +55,7 @@ MANIFEST = {
             'in the same order and the level restored; every post-block '
             'probe must see the frames of its pre-block probe; sentinel '
             'names must resolve unchanged at every probe.',
+    'more': 'Also: blocks with completely empty sections (16 kinds); client paths with None steps; the stand-alone next / previous forms; a handled exception whose traceback text no codec can encode.',
     'note': 'Trusted: the snapshot taken by the probes (identity list of '
             'TemplateDict._data, read-only, and .level).  Only namespace-'
             'value invocation points are fault points, as the property '
